@@ -8,15 +8,19 @@ NATS = {"self.lead_time": "lead_time", "self.max_useful_life": "max_useful_life"
 ZPARAMS = {"self.max_order_quantity": "max_order_quantity"}
 
 
-def nat_expr(e):
-    """index arithmetic over the two structural parameters"""
+def nat_expr(e, alias=None):
+    """index arithmetic over the structural parameters (alias: local names of the lookup constructor)"""
+    if alias and isinstance(e, ast.Name) and e.id in alias:
+        return alias[e.id]
+    if isinstance(e, ast.BinOp) and isinstance(e.op, ast.Mult) and isinstance(e.left, ast.Constant) and isinstance(e.left.value, int):
+        return f"({e.left.value} * {nat_expr(e.right, alias)})%nat"
     if isinstance(e, ast.Constant) and isinstance(e.value, int) and e.value >= 0:
         return f"{e.value}%nat"
     s = ast.unparse(e)
     if s in NATS:
         return NATS[s]
     if isinstance(e, ast.BinOp) and isinstance(e.op, (ast.Add, ast.Sub)):
-        return f"({nat_expr(e.left)} {'+' if isinstance(e.op, ast.Add) else '-'} {nat_expr(e.right)})%nat"
+        return f"({nat_expr(e.left, alias)} {'+' if isinstance(e.op, ast.Add) else '-'} {nat_expr(e.right, alias)})%nat"
     fail(e, "index expression not accepted")
 
 
@@ -27,6 +31,10 @@ def lookups(cls):
         if fn is None:
             raise TranslateError(f"_construct_{kind}_component_lookup not found")
         body = strip_docstring(fn.body)
+        alias = {}
+        while len(body) > 1 and isinstance(body[0], ast.Assign) and isinstance(body[0].targets[0], ast.Name) and ast.unparse(body[0].value) in NATS:
+            alias[body[0].targets[0].id] = NATS[ast.unparse(body[0].value)]     # e.g. m = self.max_useful_life
+            body = body[1:]
         if len(body) != 1 or not isinstance(body[0], ast.Return) or not isinstance(body[0].value, ast.Dict):
             fail(fn, "lookup constructor must return a dict literal")
         d = {}
@@ -34,7 +42,7 @@ def lookups(cls):
             if isinstance(v, ast.Constant) and isinstance(v.value, int):
                 d[k.value] = ("idx", f"{v.value}%nat")
             elif isinstance(v, ast.Call) and ast.unparse(v.func) == "slice" and len(v.args) == 2:
-                d[k.value] = ("slice", nat_expr(v.args[0]), nat_expr(v.args[1]))
+                d[k.value] = ("slice", nat_expr(v.args[0], alias), nat_expr(v.args[1], alias))
             else:
                 fail(v, "lookup entries must be integers or slice(a, b)")
         out[kind] = d
@@ -78,6 +86,8 @@ class Fn:
             r, tr = self.expr(e.right)
             if (tl, tr) == ("VZ", "VZ") and isinstance(e.op, ast.Add):
                 return f"vadd ({l}) ({r})", "VZ"
+            if (tl, tr) == ("Q", "Q"):
+                return f"({l} {'+' if isinstance(e.op, ast.Add) else '-'} {r})%Q", "Q"
             if (tl, tr) != ("Z", "Z"):
                 fail(e, "integer arithmetic only")
             return f"({l} {'+' if isinstance(e.op, ast.Add) else '-'} {r})", "Z"
@@ -143,6 +153,19 @@ class Fn:
                 if (ta, tb) != ("Z", "Z"):
                     fail(e, "max of two integers only")
                 return f"Z.max ({a}) ({b})", "Z"
+            if fs == "jnp.dot" and len(e.args) == 2 and ast.unparse(e.args[1]) in getattr(self, "coef_vectors", {}):
+                a, ta = self.expr(e.args[0])
+                if ta != "VZ":
+                    fail(e, "dot(<integer vector>, <coefficient vector>) only")
+                return f"dotzq ({a}) {self.coef_vectors[ast.unparse(e.args[1])]}", "Q"
+            if fs == "jnp.concatenate" and len(e.args) == 1 and isinstance(e.args[0], ast.List) and [k.arg for k in e.keywords] in ([], ["axis"]):
+                parts = []
+                for x in e.args[0].elts:
+                    t, ty = self.expr(x)
+                    if ty != "VZ":
+                        fail(x, "concatenate of vectors only")
+                    parts.append(f"({t})")
+                return "(" + " ++ ".join(parts) + ")", "VZ"
             if fs == "jnp.dot" and len(e.args) == 2 and ast.unparse(e.args[1]) == "self.cost_components":
                 a, ta = self.expr(e.args[0])
                 if ta != "VZ":
@@ -155,6 +178,11 @@ class Fn:
                     fail(e, "_issue_stock(stock vector, demand)")
                 return f"(if fifo then gen_issue_fifo ({a}) ({b}) else gen_issue_lifo ({a}) ({b}))", "VZ"
             if fs == "self._calculate_single_step_reward" and len(e.args) == 3:
+                if getattr(self, "reward_all_args", False):
+                    ps = [self.expr(a) for a in e.args]
+                    if [t for _, t in ps] != ["VZ", "VZ", "VZ"]:
+                        fail(e, "reward of (state, action, event)")
+                    return "gen_calculate_single_step_reward " + " ".join(f"({p})" for p, _ in ps), "Q"
                 c, tc = self.expr(e.args[2])
                 if tc != "VZ":
                     fail(e, "reward of a component vector")
